@@ -229,13 +229,28 @@ def decorator_protocol_problems(prog: Program, reg_m: FuncInfo) -> List[str]:
         from ..util import stmt_node_of as _sno
         cfg_d = CFG(reg_m, prog)
         fl_d = _FlowD(cfg_d)
+        from ..util import classify_cond as _cc, guard_edges as _ge
+
+        def is_dec(e: ast.AST, n_) -> bool:
+            if isinstance(e, ast.Name) and e.id == dec.name:
+                return True
+            if isinstance(e, ast.Name) and n_ is not None:
+                al_ = fl_d.alts(n_, e)
+                return bool(al_) and all(isinstance(a.expr, ast.Name) and a.expr.id == dec.name for a in al_)
+            return False
         for x in outer_rets:
             n_x = _sno(cfg_d, x.value) if x.value is not None else None
             leaves = [al.expr for al in fl_d.alts(n_x, x.value)] if (n_x is not None and x.value is not None) else [x.value]
             for v in leaves:
-                if isinstance(v, ast.Name) and v.id == dec.name:
+                if is_dec(v, n_x):
                     kinds_.add('decorator')
-                elif isinstance(v, ast.Call) and isinstance(v.func, ast.Name) and v.func.id == dec.name and [dotted(a) for a in v.args] == [first]:
+                elif isinstance(v, ast.Call) and is_dec(v.func, n_x) and [dotted(a) for a in v.args] == [first]:
+                    kinds_.add('decorated')
+                elif isinstance(v, ast.Name) and v.id == first and n_x is not None and any(
+                        (k_.kind == 'is-none' and k_.subject == first and ((g_.label == 'T') == k_.negated)) or
+                        (k_.kind == 'truthy' and k_.subject == first and ((g_.label == 'T') != k_.negated))
+                        for g_ in _ge(cfg_d, n_x) for k_ in [_cc(prog, reg_m, g_.src.ast)]):
+                    # the subject itself, handed back where it is known to be given (the decoration done in place)
                     kinds_.add('decorated')
                 else:
                     probs_d.append(f'`{norm(x)[:50]}` returns neither the decorator nor the decorated {first}')
